@@ -74,7 +74,7 @@ type c13Table struct {
 }
 
 func c13Cell(r *rand.Rand, delim byte, allowQuoted bool) string {
-	words := []string{"5\" disk", "12\"", "say \"hi\"", "a", "b", "id", "name", "x1", "42", "3.14", "-7", "hello world", "foo.bar", "2024-01-02", "N/A", "", "", " lead", "trail ", "é", "ü", "O'Neil", "100%", "a;b", "k=v"}
+	words := []string{"5\" disk", "12\"", "say \"hi\"", " \"", " \"x", "a \"", " \" ", "a", "b", "id", "name", "x1", "42", "3.14", "-7", "hello world", "foo.bar", "2024-01-02", "N/A", "", "", " lead", "trail ", "é", "ü", "O'Neil", "100%", "a;b", "k=v"}
 	if allowQuoted && r.Intn(6) == 0 {
 		in := []string{"x" + string(delim) + "y", "he said \"\"hi\"\"", string(delim), "a" + string(delim) + string(delim) + "b", "plain"}[r.Intn(5)]
 		return `"` + in + `"`
